@@ -74,6 +74,8 @@ px := mut any 0;
 py := mut any 0;
 px = py;
 py = px;
+cu := mut [1, 2.5][0];
+cv := mut [1, "s"][0];
 fnlist := mut [() -> mut int] [];
 for i in [1, 2]~ { fnlist += [() -> mut int { return c0 }] };
 blk := () -> mut int { return { c0 } };
@@ -110,7 +112,32 @@ pub const CELLS: &[CellSpec] = &[
 ];
 pub const CC: usize = 9;
 /// further cells of the world that are not modelled: only their declared-type invariant is judged
-pub const EXTRA_CELLS: &[&str] = &["ps", "pt", "pf", "pn", "pu", "px", "py", "selfc", "fnlist"];
+pub const EXTRA_CELLS: &[&str] = &["ps", "pt", "pf", "pn", "pu", "px", "py", "selfc", "fnlist", "cu", "cv"];
+
+/// Well-typed operations on the un-modelled cells (the checker must accept them; afterwards every
+/// cell must still hold a value of the type its run-time tag declares), with the result where it
+/// does not depend on the history. `cu` / `cv` are declared WITHOUT annotation from union-typed
+/// initialisers that constant folding narrows: their cell type is the union, not the folded one.
+pub const VALID: &[(&str, Option<i64>)] = &[
+    ("cu = 2.5", None),
+    ("cu = 3", None),
+    ("cu = 0.5", None),
+    ("if d: mut int = cu { 1 } else { 0 }", Some(0)),
+    ("if d: mut float = cu { 1 } else { 0 }", Some(0)),
+    ("if d: mut (int|float) = cu { 1 } else { 0 }", Some(1)),
+    ("{ w := (x: mut (int|float)) -> int { x = 1.5; return 7 }; w(cu) }", Some(7)),
+    ("cv = \"t\"", None),
+    ("cv = 4", None),
+    ("if d: mut int = cv { 1 } else { 0 }", Some(0)),
+    ("if d: mut (int|string) = cv { 1 } else { 0 }", Some(1)),
+    ("{ w := (x: mut (int|string)) -> int { x = \"w\"; return 8 }; w(cv) }", Some(8)),
+    ("{ l := mut [1, \"a\"][0]; l = \"b\"; if d: mut int = l { 1 } else { 0 } }", Some(0)),
+    ("{ pick := (k: bool) -> int|float { if k { return 1 } return 2.5 }; l := mut pick(true); l = 2.5; if d: mut int = l { 1 } else { 0 } }", Some(0)),
+    ("ps = struct{x := 5, y := 6}", None),
+    ("pt = (2, \"t\")", None),
+    ("pu = [\"a\", 2]", None),
+    ("pu += [3]", None),
+];
 /// index of the pseudo path "*cc" (dynamic alias: whatever int cell `cc` holds)
 pub const PATH_VIA_CC: usize = 1000;
 
@@ -136,8 +163,10 @@ pub enum OpKind {
     BumpViaRhs,
     /// pull from the shared array iterator
     Pull,
-    /// two evaluations of a `mut` expression give two independent cells, in four syntactic
-    /// contexts (function result, array literal, loop body, closure factory); all yield (1, 0, false)
+    /// variants 0-3: two evaluations of a `mut` expression give two independent cells, in four
+    /// syntactic contexts (function result, array literal, loop body, closure factory): (1, 0, false);
+    /// variants 4-9: ONE evaluation copied by array repetition / concatenation / tuples / structs /
+    /// a function: every copy is the same cell: (1, 1, true)
     MkFresh(u8),
     /// re-establish / query the self-referential cell
     SelfShow,
@@ -160,6 +189,8 @@ pub enum OpKind {
     PairTie,
     /// an assignment the checker must refuse (invariance / content type); text given explicitly
     Attack(String),
+    /// a well-typed operation on un-modelled cells: (text, history-independent result if any)
+    Valid(String, Option<i64>),
 }
 
 #[derive(Clone, Debug, PartialEq)]
@@ -200,11 +231,18 @@ impl Op {
             OpKind::SameCell(c2, p2) => format!("{p} == {}", path_src(*c2, *p2)),
             OpKind::BumpViaRhs => format!("{p} += wr()"),
             OpKind::Pull => "it()".to_string(),
-            OpKind::MkFresh(v) => match v % 4 {
+            OpKind::MkFresh(v) => match v % 10 {
                 0 => "{ x := mk(); y := mk(); x += 1; (*x, *y, x == y) }".to_string(),
                 1 => "{ p := [mut 0, mut 0]; p[0] += 1; (*p[0], *p[1], p[0] == p[1]) }".to_string(),
                 2 => "{ acc := mut [mut int] []; for i in [1, 2]~ { acc += [mut 0] }; q := *acc; q[0] += 1; (*q[0], *q[1], q[0] == q[1]) }".to_string(),
-                _ => "{ mkc := () -> () -> mut int { c := mut 0; return () -> mut int { return c } }; g1 := mkc(); g2 := mkc(); g1() += 1; (*g1(), *g2(), g1() == g2()) }".to_string(),
+                3 => "{ mkc := () -> () -> mut int { c := mut 0; return () -> mut int { return c } }; g1 := mkc(); g2 := mkc(); g1() += 1; (*g1(), *g2(), g1() == g2()) }".to_string(),
+                // one evaluation, several copies: all copies are the same cell -> (1, 1, true)
+                4 => "{ p := [mut 0; 3]; p[0] += 1; (*p[0], *p[2], p[0] == p[1]) }".to_string(),
+                5 => "{ x := mk(); p := [x; 2] + [x]; p[2] += 1; (*p[0], *x, p[0] == p[1]) }".to_string(),
+                6 => "{ p := [struct{c := mut 0}; 2]; p[0].c += 1; (*p[0].c, *p[1].c, p[0].c == p[1].c) }".to_string(),
+                7 => "{ p := [mk(); 2]; q := (p[0], p); q.1[1] += 1; (*q.0, *p[0], q.0 == p[1]) }".to_string(),
+                8 => "{ rep := (c: mut int, n: int) -> [mut int] { return [c; n] }; x := mut 0; p := rep(x, 2); p[1] += 1; (*x, *p[0], x == p[1]) }".to_string(),
+                _ => "{ p := [(mut 0, 1); 2]; p[1].0 += 1; (*p[0].0, *p[1].0, p[0].0 == p[1].0) }".to_string(),
             },
             OpKind::SelfShow => "std.convert.to_string(selfc)".to_string(),
             OpKind::SelfSet(v) => format!("selfc = {}", lit(v)),
@@ -212,6 +250,7 @@ impl Op {
             OpKind::ReadViaParam => format!("rdint({p})"),
             OpKind::AddViaParam(k) => format!("addto({p}, {k})"),
             OpKind::Attack(text) => text.clone(),
+            OpKind::Valid(text, _) => text.clone(),
             OpKind::ApplyViaParam(op, k) => format!("apply({p}, {k}, {})", INT_OPS.iter().position(|o| o == op).unwrap_or(0)),
             OpKind::TransferFrom(op, c2, p2) => format!("{p} {op}= *{}", path_src(*c2, *p2)),
             OpKind::CompareContents(c2, p2) => format!("*{} == *{}", if p.starts_with('*') { format!("({p})") } else { p.clone() }, path_src(*c2, *p2)),
@@ -272,6 +311,7 @@ fn kind_json(k: &OpKind) -> Value {
         OpKind::ReadViaParam => json!("read_via_param"),
         OpKind::AddViaParam(k) => json!({"add_via_param": k}),
         OpKind::Attack(t) => json!({"attack": t}),
+        OpKind::Valid(t, r) => json!({"valid": [t, r]}),
         OpKind::ApplyViaParam(op, k) => json!({"apply_via_param": [op, k]}),
         OpKind::TransferFrom(op, c, p) => json!({"transfer_from": [op, c, p]}),
         OpKind::CompareContents(c, p) => json!({"compare_contents": [c, p]}),
@@ -306,6 +346,7 @@ fn kind_from_json(v: &Value) -> OpKind {
         "mk_fresh" => OpKind::MkFresh(x.as_u64().unwrap_or(0) as u8),
         "add_via_param" => OpKind::AddViaParam(x.as_i64().unwrap()),
         "attack" => OpKind::Attack(x.as_str().unwrap().to_string()),
+        "valid" => OpKind::Valid(x[0].as_str().unwrap().to_string(), x[1].as_i64()),
         "apply_via_param" => OpKind::ApplyViaParam(x[0].as_str().unwrap().to_string(), x[1].as_i64().unwrap()),
         "transfer_from" => OpKind::TransferFrom(x[0].as_str().unwrap().to_string(), x[1].as_u64().unwrap() as usize, x[2].as_u64().unwrap() as usize),
         "compare_contents" => OpKind::CompareContents(x[0].as_u64().unwrap() as usize, x[1].as_u64().unwrap() as usize),
@@ -510,11 +551,14 @@ impl Model {
                 self.iter_pos += 1;
                 Expect::Value(r)
             }
-            OpKind::MkFresh(_) => Expect::Value(Val::Arr(vec![Val::Int(1), Val::Int(0), Val::Bool(false)])),
+            OpKind::MkFresh(v) if v % 10 < 4 => Expect::Value(Val::Arr(vec![Val::Int(1), Val::Int(0), Val::Bool(false)])),
+            OpKind::MkFresh(_) => Expect::Value(Val::Arr(vec![Val::Int(1), Val::Int(1), Val::Bool(true)])),
             OpKind::SelfShow => Expect::Unchecked,
             OpKind::SelfSet(v) => Expect::Value(v.clone()),
             OpKind::SelfTie => Expect::Value(Val::Int(0)),
             OpKind::Attack(_) => Expect::Rejected,
+            OpKind::Valid(_, Some(n)) => Expect::Value(Val::Int(*n)),
+            OpKind::Valid(_, None) => Expect::Unchecked,
             OpKind::ApplyViaParam(o, k) => match compound(o, &self.heap[target], &Val::Int(*k)) {
                 Ok(r) => {
                     self.heap[target] = r.clone();
@@ -605,7 +649,11 @@ pub fn gen_op(rng: &mut Rng, cfg: &GenCfg, unique: &mut i64) -> Op {
             };
         }
         if roll < 12 && !cfg.concurrent {
-            return Op { cell: 0, path: 0, kind: OpKind::MkFresh(rng.below(4) as u8) };
+            if rng.chance(1, 3) {
+                let (text, r) = VALID[rng.below(VALID.len())];
+                return Op { cell: 0, path: 0, kind: OpKind::Valid(text.to_string(), r) };
+            }
+            return Op { cell: 0, path: 0, kind: OpKind::MkFresh(rng.below(10) as u8) };
         }
         let cell = if cfg.cells.is_empty() { rng.below(CELLS.len()) } else { cfg.cells[rng.below(cfg.cells.len())] };
         let spec = &CELLS[cell];
